@@ -1,11 +1,13 @@
 /- Driver for C14: runs the history models of Model/Histories.lean (which interpret the
    generated micro-op lists / loop conditions) on lines from stdin.
 
-   hist <tempo|mft> <start> <dt> <faults: i,j,..|-> <ref target> <targets...>
+   hist <tempo|mft> <start> <dt> <faults: i,jb,..|-> <ref target> <targets...>
+        (`jb`: invocation j raises a BaseException that is not an Exception)
         -> ok flags ; step ; calls ; trace ; times ; same-as-single-call(ref)
    pt <n> <ops: string of c/g>      -> outputs ; step ; net ; ptLen
    gibbs <n> <number of computes>   -> step ; label indices ; recorded ; state
-   tebd <start> <pre: steps|-> <post: steps|-> <targets: ints,>   -> step ; chain ; result steps
+   tebd <start> <pre: steps|-> <post: steps|-> <ops: int (compute) | d | r | m (getters),..>
+        -> step ; chain ; result steps ; same-as-single-call(largest target)
    tebdrestart <pre|-> <post|-> <m> <n>
         -> restarted chain (new part) ; result steps ; chain-equal ; results-equal -/
 import OQuPyVerif.Model.Proto
@@ -18,6 +20,17 @@ def rats (ws : List String) : Option (List Rat) := ws.mapM parseRat?
 
 def natList (s : String) : Option (List Nat) :=
   if s == "-" then some [] else (s.splitOn ",").mapM (fun w => w.toNat?)
+
+/-- `3` | `3b` -/
+def faultList (s : String) : Option (List (Nat × Bool)) :=
+  if s == "-" then some [] else (s.splitOn ",").mapM (fun w =>
+    if w.endsWith "b" then (String.ofList w.toList.dropLast).toNat?.map (fun n => (n, true))
+    else w.toNat?.map (fun n => (n, false)))
+
+def tebdOps (s : String) : Option (List TebdOp) :=
+  (s.splitOn ",").mapM (fun w =>
+    if w == "d" then some TebdOp.getDM else if w == "r" then some TebdOp.getResults
+    else if w == "m" then some TebdOp.getMPS else w.toInt?.map TebdOp.compute)
 
 def intList (s : String) : Option (List Int) :=
   if s == "-" then some [] else (s.splitOn ",").mapM (fun w => w.toInt?)
@@ -37,8 +50,9 @@ def showPtOut : PtOut → String
   | .raised => "raised"
   | .pt c => "pt:" ++ ",".intercalate (c.map toString)
 
-def histLine (api : String) (s dt : Rat) (faults : List Nat) (ref : Rat) (es : List Rat) : String :=
-  let faulty : Nat → Bool := fun n => faults.contains n
+def histLine (api : String) (s dt : Rat) (faults : List (Nat × Bool)) (ref : Rat) (es : List Rat) : String :=
+  let faulty : Oracle := ⟨fun n => faults.any (fun f => f.1 == n),
+                          fun n => faults.any (fun f => f.1 == n && f.2)⟩
   let (numStep, time, init, ops) :=
     if api == "tempo" then (tempo_num_step s dt, tempo_time s dt, tempo_init_step, tempo_compute_step)
     else (mft_num_step s dt, mft_time s dt, mft_init_step, mft_compute_step)
@@ -72,7 +86,7 @@ def mkCfg (start : Int) (pre post : List Int) (initial : List ChainEv) : TebdCfg
 def step (line : String) : String :=
   match words line with
   | "hist" :: api :: s :: dt :: faults :: ref :: es =>
-    match parseRat? s, parseRat? dt, natList faults, parseRat? ref, rats es with
+    match parseRat? s, parseRat? dt, faultList faults, parseRat? ref, rats es with
     | some s, some dt, some f, some ref, some es =>
       if api == "tempo" || api == "mft" then histLine api s dt f ref es else "bad-op"
     | _, _, _, _, _ => "bad-op"
@@ -85,11 +99,15 @@ def step (line : String) : String :=
     | some n, some k => gibbsLine n k
     | _, _ => "bad-op"
   | ["tebd", start, pre, post, targets] =>
-    match parseInt? start, intList pre, intList post, intList targets with
-    | some start, some pre, some post, some ts =>
-      let t := tebdHist (mkCfg start pre post []) ts
+    match parseInt? start, intList pre, intList post, tebdOps targets with
+    | some start, some pre, some post, some ops =>
+      let cfg := mkCfg start pre post []
+      let t := tebdOpHist cfg ops
+      let far := (computesOf ops).foldl max start
+      let single := tebdCompute cfg Tebd.fresh far
+      let same := decide (t.results = single.results ∧ t.chain = single.chain ∧ t.step = single.step)
       let st := match t.step with | some k => toString k | none => "none"
-      s!"{st};{showChain t.chain};{showInts (t.results.map (·.1))}"
+      s!"{st};{showChain t.chain};{showInts (t.results.map (·.1))};{if same then 1 else 0}"
     | _, _, _, _ => "bad-op"
   | ["tebdrestart", pre, post, m, n] =>
     match intList pre, intList post, parseInt? m, parseInt? n with
